@@ -13,12 +13,12 @@ IMPORTS = ["M_Slicing", "Shape", "M_ExtraCoords"]
 MODEL_FILES = ["Model/M_ExtraCoords.v", "Model/M_Slicing.v", "Base/Shape.v"]
 DEPS = ["pyindex"]
 RULE = ("cases = (cube of 1-4 dims, 0-4 lookup-table extra coords: Quantity / Time / 1-D SkyCoord on one axis, "
-        "two-table Quantity on two axes, any axis assignment incl. shared axes, chain of 1-3 slices with ints, "
+        "two-table Quantity on two axes, meshed SkyCoord over two equally long axes, any axis assignment incl. shared axes, chain of 1-3 slices with ints, "
         "open / negative / over-long slices, Ellipsis); a sample is re-run in fresh interpreter processes with "
         "different hash seeds and heap layouts (order stability); distinct by key; non-trivial = some slice is not "
         "the identity")
 ASSUMPTIONS = ["Quantity / Time / SkyCoord slicing themselves are dependencies (numpy selection, np_axis_sel)",
-               "meshed and 2-D SkyCoord tables are not generated; WCS-backed ExtraCoords only with the cube's dimensionality, identity mapping and range slices (direct oracle)",
+               "meshed SkyCoord tables only with slices on their two axes (an integer on one of them: known finding of C19), 2-D SkyCoord tables are not generated; WCS-backed ExtraCoords only with the cube's dimensionality, identity mapping and range slices (direct oracle)",
                "address-dependent ordering is observed by repetition in fresh processes (a runtime fact no model can exhibit)"]
 EPOCH = "2020-01-01T00:00:00"
 
@@ -87,6 +87,42 @@ def gen(tier, rng):
         cases.append({"key": key, "stratum": f"{len(tabs)}tables-depth{len(chain)}", "shape": shape, "tabs": tabs,
                       "chain": chain, "probe": False, "nontrivial": True,
                       "show": {"shape": shape, "extra_coords": tabs, "slices": chain}})
+    # meshed SkyCoord over two (equally long) axes, chains of 1-3 slices that never put an integer on those two axes
+    # (an integer on one of them leaves a coordinate without WCS: known finding of C19)
+    for _ in range(250 if tier == "quick" else 4000):
+        nd = rng.choice([2, 3])
+        L = rng.choice([3, 4, 5, 6])
+        shape = [rng.choice([2, 3, 4]) for _ in range(nd)]
+        a0, a1 = sorted(rng.sample(range(nd), 2))
+        shape[a0] = shape[a1] = L
+        tabs = [["skymesh", [a0, a1], rng.randrange(10 ** 6)]]
+        if rng.random() < 0.5:
+            tabs.append(["q", [rng.randrange(nd)], rng.randrange(10 ** 6)])
+        chain, cur, axes_now = [], list(shape), list(range(nd))
+        for _d in range(rng.choice([1, 2, 2, 3])):
+            its = []
+            for orig, sz in zip(axes_now, cur):
+                it = _axis_item(rng, sz)
+                if orig in (a0, a1) and isinstance(it, int):
+                    it = ["s", rng.choice([None, 0, 1, -2]), rng.choice([None, sz, -1, sz - 1]), None]
+                its.append(it)
+            if all(isinstance(i, int) for i in its):
+                continue
+            new, new_axes, ok = [], [], True
+            for orig, sz, it in zip(axes_now, cur, its):
+                if isinstance(it, int):
+                    ok = ok and -sz <= it < sz
+                else:
+                    new.append(len(range(sz)[slice(it[1], it[2])]))
+                    new_axes.append(orig)
+            if not ok or not new or 0 in new:
+                break
+            chain.append(its)
+            cur, axes_now = new, new_axes
+        if chain:
+            key = f"{shape}|{tabs}|{chain}"
+            cases.append({"key": key, "stratum": f"skymesh-depth{len(chain)}", "shape": shape, "tabs": tabs, "chain": chain,
+                          "probe": False, "nontrivial": True, "show": {"shape": shape, "extra_coords": tabs, "slices": chain}})
     # WCS-backed ExtraCoords (a second FITS WCS of the cube's dimensionality, identity mapping), range slices only
     for _ in range(150 if tier == "quick" else 3000):
         nd = rng.choice([1, 2, 3])
@@ -137,6 +173,10 @@ def build(case):
         elif kind == "time":
             cube.extra_coords.add(f"n{i}0", axes[0], Time(EPOCH) + np.abs(_vals(kind, shape[axes[0]], seed)) * 64 * u.s,
                                   physical_types=(f"custom:n{i}0" if seed % 2 else None))
+        elif kind == "skymesh":
+            v = _vals(kind, shape[axes[0]], seed)
+            cube.extra_coords.add((f"n{i}0", f"n{i}1"), tuple(axes), SkyCoord(np.abs(v) / 8 * u.deg, v / 16 * u.deg), mesh=True,
+                                  physical_types=(f"custom:n{i}0", f"custom:n{i}1"))
         elif kind == "sky1":
             v = _vals(kind, shape[axes[0]], seed)
             cube.extra_coords.add((f"n{i}0", f"n{i}1"), axes[0], SkyCoord(np.abs(v) / 8 * u.deg, v / 16 * u.deg),
@@ -380,6 +420,11 @@ def _model_table(i, kind, axes, seed, shape):
         vals = [vals[0] - vals[0][0]]
         names = [10 * i]
         k = "KJoint"
+    elif kind == "skymesh":
+        v = _vals(kind, lens[0], seed)
+        vals = [np.abs(v) / 8, v / 16]
+        names = [10 * i, 10 * i + 1]
+        k = "KSep"                      # lon on the first axis, lat on the second: behaves like two separate tables
     elif kind == "sky1":
         v = _vals(kind, lens[0], seed)
         vals = [np.abs(v) / 8, v / 16]
